@@ -45,6 +45,19 @@ def sym(d):
     return (d.get("type"), d.get("dots") or 0, d.get("actual_notes"), d.get("normal_notes"))
 
 
+def grace_target(g, S):
+    """what a grace note leads to: the next grace note of its run (by id), or the main note (any member of the chord it
+    embellishes: by onset and voice)"""
+    nxt = getattr(g, "grace_next", None)
+    if nxt is None:
+        return None
+    if isinstance(nxt, S.GraceNote):
+        return nxt.id
+    if nxt.start is None:
+        return ("main-not-on-the-timeline",)
+    return ("main", int(nxt.start.t), nxt.voice)
+
+
 def fingerprint_part(part):
     import partitura.score as S
     fp = collections.OrderedDict()
@@ -70,7 +83,10 @@ def fingerprint_part(part):
                     # (a note without a staff stands on staff 1: MusicXML has no way to say "no staff" in a one-staff part)
                     cat["notes"].append((cls.__name__, o.id, t, e, pitch, int(o.voice) if o.voice is not None else None, int(o.staff or 1), sym(o._sym_dur if o._sym_dur else o.symbolic_duration),
                                          getattr(o.tie_next, "id", None), getattr(o.tie_prev, "id", None),
-                                         tuple(sorted(o.articulations or ())), fing, o.stem_direction, o.fermata is not None, grace))
+                                         tuple(sorted(o.articulations or ())), fing, o.stem_direction, o.fermata is not None, grace,
+                                         # the run a grace note belongs to: its neighbours in the run / the main note
+                                         (getattr(getattr(o, "grace_prev", None), "id", None), grace_target(o, S))
+                                         if isinstance(o, S.GraceNote) else None))
                 elif cls is S.Measure:
                     cat["measures"].append((o.number, str(o.name) if o.name is not None else None, t, e))
                 elif cls is S.TimeSignature:
@@ -196,7 +212,7 @@ def first_diff(a, b):
 
 
 NOTE_FIELDS = ["class", "id", "start", "end", "pitch", "voice", "staff", "symbolic_duration", "tie_next", "tie_prev", "articulations",
-               "fingering", "stem", "fermata", "grace"]
+               "fingering", "stem", "fermata", "grace", "grace_run_links"]
 
 
 def classify(cat, only_a, only_b, arg_part):
@@ -459,6 +475,12 @@ def run_item(ctx, item):
                 p_.remove(n)
                 p_.add(u, s_, e_)
         pitched = [n for n in timemaps.objects_of(p_, S.Note, exact=True)]
+        if p_.number_of_staves >= 2 and rng.random() < 0.5:
+            # a run of grace notes handed from one staff to the other (an arpeggio shared by both hands)
+            for g_ in timemaps.objects_of(p_, S.GraceNote):
+                if g_.grace_prev is not None and isinstance(g_.grace_prev, S.GraceNote) and rng.random() < 0.5:
+                    g_.staff = rng.choice([st for st in range(1, p_.number_of_staves + 1) if st != (g_.staff or 1)])
+                    ctx.extra["grace_runs_crossing_staves"] += 1
         if rng.random() < 0.12:
             ms_ = sorted(timemaps.objects_of(p_, S.Measure), key=lambda m_: m_.start.t)
             if len(ms_) >= 2:
@@ -519,6 +541,8 @@ def run_item(ctx, item):
                    if n.end is not None and n.end.t == m_.end.t and n.start.t >= m_.start.t and n.start.t > m_.start.t
                    and n.tie_next is None and n.tie_prev is None and not n.slur_starts and not n.slur_stops and not n.tuplet_starts
                    and not n.tuplet_stops and n.fermata is None and not isinstance(n, S.GraceNote)]
+        mains = {id(g_.grace_next) for g_ in timemaps.objects_of(p0, S.GraceNote) if g_.grace_next is not None}
+        victims = [v_ for v_ in victims if id(v_) not in mains]         # (a grace note keeps the note it leads to)
         if victims:
             for v_ in victims:
                 p0.remove(v_)
